@@ -56,7 +56,7 @@ def _expand(content):
     return content
 
 
-def _version(rng, i, kind, sibling=False):
+def _version(rng, i, kind, sibling=False, nstop=False):
     """One version of the package: relpath (inside the package dir; `../_pkg/x.py` = private sibling package) -> content."""
     params = ["a", "b", "c"][: rng.choice([1, 2, 3])]
     sig = ", ".join(params)
@@ -83,6 +83,9 @@ def _version(rng, i, kind, sibling=False):
         # a namespace sub-package (a directory without __init__): it comes and goes between versions
         files["nsp/x.py"] = f"def h(a={i}):\n    return a\n"
         files["__init__.py"] = files["__init__.py"].replace('__all__ = ["f"]', '__all__ = ["f", "nsp"]')
+    if nstop:
+        # the package is a native namespace package: no __init__.py at its top (nor anywhere else)
+        files.pop("__init__.py", None)
     if kind == "syntax":
         files["a.py"] = "def f(:\n    pass\n"
     elif kind == "undecodable":
@@ -96,6 +99,7 @@ def generate(rng, opts):
     layout = rng.choice(["root", "root", "src"])
     n_commits = rng.choice([2, 3, 3, 4, 5])
     sibling = rng.random() < 0.35
+    nstop = not sibling and rng.random() < 0.1
     commits = []
     for i in range(n_commits):
         kind = "normal"
@@ -106,7 +110,7 @@ def generate(rng, opts):
             kind = "nopkg"
         elif r < 0.2:
             kind = "undecodable"
-        commits.append({"kind": kind, "files": {} if kind == "nopkg" else _version(rng, i, kind, sibling), "tags": [], "branches": []})
+        commits.append({"kind": kind, "files": {} if kind == "nopkg" else _version(rng, i, kind, sibling, nstop), "tags": [], "branches": []})
     for t in rng.sample(TAGS, rng.choice([1, 2, 3])):
         commits[rng.randrange(n_commits)]["tags"].append(t)
     for b in rng.sample(BRANCHES, rng.choice([0, 1, 2])):
